@@ -110,6 +110,54 @@ func dnsQuery(k int) []byte {
 	return append(b, 0, 1, 0, 1)
 }
 
+// dnsResponse builds an answer with several record types: A, AAAA, CNAME with
+// a compression pointer, TXT with one to three character-strings, MX, SRV.
+func dnsResponse(k int) []byte {
+	b := []byte{0xab, 0xcd, 0x81, 0x80, 0, 1, 0, 0, 0, 0, 0, 0}
+	qname := []byte{7, 'e', 'x', 'a', 'm', 'p', 'l', 'e', 3, 'c', 'o', 'm', 0}
+	b = append(b, qname...)
+	b = append(b, 0, 16, 0, 1)
+	n := 0
+	rr := func(typ uint16, rdata []byte) {
+		b = append(b, 0xc0, 12) // pointer to the question name
+		b = binary.BigEndian.AppendUint16(b, typ)
+		b = append(b, 0, 1, 0, 0, 1, 0x2c)
+		b = binary.BigEndian.AppendUint16(b, uint16(len(rdata)))
+		b = append(b, rdata...)
+		n++
+	}
+	txt := func(strs ...string) []byte {
+		var r []byte
+		for _, s := range strs {
+			r = append(r, byte(len(s)))
+			r = append(r, s...)
+		}
+		return r
+	}
+	switch k % 6 {
+	case 0:
+		rr(16, txt("v=spf1 include:example.net", "ip4:192.0.2.0/24 -all"))
+	case 1:
+		rr(16, txt("one"))
+		rr(16, txt("a", "bb", "ccc"))
+	case 2:
+		rr(1, []byte{192, 0, 2, 7})
+		rr(28, append(make([]byte, 15), 1))
+		rr(5, []byte{3, 'w', 'w', 'w', 0xc0, 12})
+	case 3:
+		rr(15, append([]byte{0, 10}, 4, 'm', 'a', 'i', 'l', 0xc0, 12))
+		rr(33, append([]byte{0, 1, 0, 2, 0x01, 0xbb}, 3, 's', 'i', 'p', 0xc0, 12))
+	case 4:
+		rr(16, txt("", "x", ""))
+		rr(2, []byte{2, 'n', 's', 0xc0, 12})
+	case 5:
+		rr(16, txt("k=rsa; p=MIGfMA0GCSqGSIb3DQEBAQUAA4GNADCBiQKBgQC", "second half of the key", "third"))
+		rr(6, append(append([]byte{2, 'n', 's', 0xc0, 12}, 4, 'r', 'o', 'o', 't', 0xc0, 12), make([]byte, 20)...))
+	}
+	binary.BigEndian.PutUint16(b[6:], uint16(n))
+	return b
+}
+
 func icmp4(data []byte) []byte {
 	b := append([]byte{8, 0, 0, 0, 0, 1, 0, 2}, data...)
 	binary.BigEndian.PutUint16(b[2:], csum(b, 0))
@@ -132,17 +180,26 @@ func icmp6(data []byte) []byte { return append([]byte{128, 0, 0x12, 0x34, 0, 1, 
 func gre(inner []byte) []byte { return append([]byte{0, 0, 0x08, 0x00}, inner...) }
 
 // corpus draws 4..12 inputs: well-formed stacks plus truncations and bit flips.
-func corpus(c *sim.Ctx, big bool) [][]byte {
+func corpus(c *sim.Ctx, big bool) ([][]byte, []gopacket.Decoder) {
 	var out [][]byte
+	var firsts []gopacket.Decoder
 	n := 4 + c.Draw(9)
 	for i := 0; i < n; i++ {
+		var first gopacket.Decoder = layers.LayerTypeEthernet
 		pl := payload(i, c.Draw(60))
 		if big && c.Chance(200) {
 			pl = payload(i, 1400+c.Draw(300)) // around the pool block size
 		}
 		good := c.Draw(2) == 0
 		var b []byte
-		switch c.Draw(8) {
+		switch c.Draw(14) {
+		case 8:
+			b = eth(0x0800, ip4(17, udp(53, 5353, dnsResponse(c.Draw(6)), good), true), false)
+		case 9, 10, 11, 12, 13:
+			// a packet of gopacket's own layer tests (bytes only): many more protocols
+			sm := samples[c.Draw(len(samples))]
+			b, first = []byte(sm.data), sm.first
+			c.Fault("layer_test_sample")
 		case 0:
 			b = eth(0x0800, ip4(6, tcp(pl, good), good), false)
 		case 1:
@@ -164,7 +221,8 @@ func corpus(c *sim.Ctx, big bool) [][]byte {
 			// a near-duplicate of an earlier input (same conversation, a
 			// retransmission, the answer to a query, a differently spelled name):
 			// what state kept between decodes is most likely to confuse
-			b = append([]byte(nil), out[c.Draw(i)]...)
+			j := c.Draw(i)
+			b, first = append([]byte(nil), out[j]...), firsts[j]
 			if len(b) > 0 {
 				switch c.Draw(3) {
 				case 0: // ASCII case of one letter
@@ -203,8 +261,9 @@ func corpus(c *sim.Ctx, big bool) [][]byte {
 			buf[k] = byte(0xC3 + k*29 + i)
 		}
 		out = append(out, buf[:len(b)])
+		firsts = append(firsts, first)
 	}
-	return out
+	return out, firsts
 }
 
 // signature renders everything observable about a packet without addresses.
@@ -216,7 +275,16 @@ func signature(p gopacket.Packet) string {
 			sb.WriteString("decode-failure\n") // its dump contains a goroutine stack
 			continue
 		}
-		sb.WriteString(gopacket.LayerString(l))
+		func() {
+			// (a renderer that panics on a decoded layer is property C01's
+			// business; here only "same packet, same answer" matters)
+			defer func() {
+				if r := recover(); r != nil {
+					fmt.Fprintf(&sb, "render-panic:%s", sim.PanicMsg(r))
+				}
+			}()
+			sb.WriteString(gopacket.LayerString(l))
+		}()
 		sb.WriteByte('\n')
 	}
 	m := p.Metadata()
@@ -261,6 +329,17 @@ func prepare(p gopacket.Packet) {
 	}
 }
 
+// safe runs a renderer; a renderer that panics on some decoded layer is
+// property C01's business, here only "same packet, same answer" matters.
+func safe(f func() string) (out string) {
+	defer func() {
+		if r := recover(); r != nil {
+			out = "render-panic:" + sim.PanicMsg(r)
+		}
+	}()
+	return f()
+}
+
 // readAll exercises the read-only accessors of a shared eager packet.
 func readAll(p gopacket.Packet, which int) string {
 	var sb strings.Builder
@@ -268,7 +347,7 @@ func readAll(p gopacket.Packet, which int) string {
 	case 0:
 		sb.WriteString(signature(p))
 	case 1:
-		sb.WriteString(p.String())
+		sb.WriteString(safe(p.String))
 		for _, l := range p.Layers() {
 			// rendered for the race detector's sake; Go syntax can contain
 			// addresses, so the text is not compared
@@ -278,12 +357,12 @@ func readAll(p gopacket.Packet, which int) string {
 				defer func() { recover() }()
 				_ = gopacket.LayerGoString(l)
 			}()
-			_ = gopacket.LayerDump(l)
+			_ = safe(func() string { return gopacket.LayerDump(l) })
 		}
 		_ = p.Data()
 		_ = p.Metadata().CaptureInfo
 	case 2:
-		d := p.Dump()
+		d := safe(p.Dump)
 		if p.ErrorLayer() != nil {
 			d = "dump-with-error"
 		}
@@ -330,7 +409,7 @@ type shared struct {
 // ---- C02 ----
 
 func simC02(c *sim.Ctx) {
-	inputs := corpus(c, false)
+	inputs, firsts := corpus(c, false)
 	pristine := make([][]byte, len(inputs))
 	for i, b := range inputs {
 		pristine[i] = append([]byte(nil), b...)
@@ -341,7 +420,7 @@ func simC02(c *sim.Ctx) {
 		for k := 0; k < 8; k++ {
 			// from a separate copy of the same bytes: what lies behind len() of
 			// the caller's slice must not matter
-			p := gopacket.NewPacket(pristine[i], layers.LayerTypeEthernet, opts(k%4))
+			p := gopacket.NewPacket(pristine[i], firsts[i], opts(k%4))
 			if k >= 4 {
 				prepare(p) // checksums of TCP/UDP/ICMPv6 are then really verified
 			}
@@ -383,7 +462,7 @@ func simC02(c *sim.Ctx) {
 				w.Yield(100)
 				switch o.kind {
 				case 0: // decode and compare with the quiet-state reference
-					p := gopacket.NewPacket(inputs[o.a], layers.LayerTypeEthernet, opts(o.b%4))
+					p := gopacket.NewPacket(inputs[o.a], firsts[o.a], opts(o.b%4))
 					if o.b >= 4 {
 						prepare(p)
 					}
@@ -398,7 +477,7 @@ func simC02(c *sim.Ctx) {
 					if o.b%nw != wi || slots[o.b].p.Load() != nil {
 						continue
 					}
-					p := gopacket.NewPacket(inputs[o.a], layers.LayerTypeEthernet, gopacket.Default)
+					p := gopacket.NewPacket(inputs[o.a], firsts[o.a], gopacket.Default)
 					if prep {
 						// the publisher's own preparation, finished before the hand-over
 						prepare(p)
@@ -411,7 +490,7 @@ func simC02(c *sim.Ctx) {
 					// then happens among the concurrent readers, not here.
 					twin := p
 					if o.a%2 == 0 {
-						twin = gopacket.NewPacket(inputs[o.a], layers.LayerTypeEthernet, gopacket.Default)
+						twin = gopacket.NewPacket(inputs[o.a], firsts[o.a], gopacket.Default)
 						if prep {
 							prepare(twin)
 						}
@@ -462,6 +541,8 @@ type owned struct {
 	live   bool
 }
 
+// base is the address of the first byte of the packet's data (0 for a packet
+// without bytes: nothing there to share).
 func base(p gopacket.Packet) uintptr {
 	d := p.Data()
 	if cap(d) == 0 {
@@ -471,18 +552,19 @@ func base(p gopacket.Packet) uintptr {
 }
 
 func simC04(c *sim.Ctx) {
-	inputs := corpus(c, true)
+	inputs, firsts := corpus(c, true)
 	// lengths around the pool block
 	for _, n := range []int{0, 1, 1499, 1500, 1501, 3000} {
 		if c.Chance(300) {
 			inputs = append(inputs, eth(0x0800, ip4(17, udp(7, 9, payload(n, n), true), true), false)[:n])
+			firsts = append(firsts, layers.LayerTypeEthernet)
 		}
 	}
 	orig := make([][]byte, len(inputs))
 	refsig := make([]string, len(inputs))
 	for i, b := range inputs {
 		orig[i] = append([]byte(nil), b...)
-		refsig[i] = signature(gopacket.NewPacket(orig[i], layers.LayerTypeEthernet, gopacket.Default))
+		refsig[i] = signature(gopacket.NewPacket(orig[i], firsts[i], gopacket.Default))
 	}
 	s := coop.New(c)
 	nw := 2 + c.Weighted(2, 2, 1)
@@ -541,7 +623,7 @@ func simC04(c *sim.Ctx) {
 						continue
 					}
 					in := inputs[o.a]
-					p := gopacket.NewPacket(in, layers.LayerTypeEthernet, do)
+					p := gopacket.NewPacket(in, firsts[o.a], do)
 					ow := &owned{p: p, in: o.a, live: true, nocopy: do.NoCopy}
 					_, ow.pooled = p.(gopacket.PooledPacket)
 					ow.sig = signature(p)
@@ -559,7 +641,7 @@ func simC04(c *sim.Ctx) {
 					// no two live pooled packets share backing memory
 					if ow.pooled {
 						for _, q := range own[wi] {
-							if q.live && q.pooled && base(q.p) == base(p) {
+							if q.live && q.pooled && base(p) != 0 && base(q.p) == base(p) {
 								fail("pool", "shared-backing-memory", "NewPacket", "two undisposed pooled packets (inputs %d and %d) share one pool block", q.in, o.a)
 							}
 						}
@@ -638,7 +720,7 @@ func simC04(c *sim.Ctx) {
 	}
 	for i := range live {
 		for j := i + 1; j < len(live); j++ {
-			if base(live[i].p) == base(live[j].p) {
+			if base(live[i].p) != 0 && base(live[i].p) == base(live[j].p) {
 				c.Fail("pool", "shared-backing-memory", "NewPacket", "two undisposed pooled packets (inputs %d and %d) share one pool block", live[i].in, live[j].in)
 			}
 		}
